@@ -18,6 +18,7 @@ import (
 	"fmt"
 	"iter"
 	"reflect"
+	"runtime"
 	"runtime/debug"
 	"strings"
 	"sync"
@@ -153,6 +154,42 @@ type Sched struct {
 // S is the scheduler of the run in progress (one run at a time per process).
 var S *Sched
 
+// RawLib is set in the uninstrumented cross-check mode: library goroutines
+// are then ordinary goroutines under the Go scheduler, not tasks, and may call
+// harness-supplied user functions; operations invoked from a goroutine that is
+// not a task must then fall through to the raw operation. Task goroutines are
+// recognised by goroutine id (parsed from runtime.Stack) in that mode only.
+var RawLib bool
+
+var (
+	gidMu sync.Mutex
+	gids  = map[uint64]*Task{}
+)
+
+func goid() uint64 {
+	var buf [64]byte
+	n := runtime.Stack(buf[:], false)
+	var id uint64
+	for _, c := range buf[len("goroutine "):n] {
+		if c < '0' || c > '9' {
+			break
+		}
+		id = id*10 + uint64(c-'0')
+	}
+	return id
+}
+
+// IsTask reports whether the calling goroutine runs under the scheduler. In
+// the normal (instrumented) mode every goroutine that reaches simrt does.
+func IsTask() bool {
+	if !RawLib {
+		return true
+	}
+	gidMu.Lock()
+	defer gidMu.Unlock()
+	return gids[goid()] != nil
+}
+
 // New creates a scheduler; must be called inside the bubble.
 func New() *Sched {
 	return &Sched{
@@ -245,6 +282,9 @@ func enter(site string) (*Sched, *Task) {
 	if s == nil || s.free.Load() {
 		return s, nil
 	}
+	if RawLib && !IsTask() {
+		return s, nil
+	}
 	t := s.cur
 	if t == nil {
 		return s, nil
@@ -290,7 +330,7 @@ func Yield(site string) { enter(site) }
 // Preempt is the optional statement-level scheduling point.
 func Preempt(site string) {
 	s := S
-	if s == nil || s.PreemptN == 0 || s.free.Load() || s.cur == nil {
+	if s == nil || s.PreemptN == 0 || s.free.Load() || s.cur == nil || RawLib {
 		return
 	}
 	if s.Choose(ChPreempt, s.PreemptN, site) == 1 {
@@ -341,6 +381,17 @@ func spawn(name string, lib bool, f func()) {
 			s.mu.Unlock()
 			s.signal()
 		}()
+		if RawLib {
+			id := goid()
+			gidMu.Lock()
+			gids[id] = t
+			gidMu.Unlock()
+			defer func() {
+				gidMu.Lock()
+				delete(gids, id)
+				gidMu.Unlock()
+			}()
+		}
 		<-t.gate
 		f()
 	}()
@@ -442,7 +493,7 @@ func Close[T any](site string, c chan<- T) {
 // Sleep replaces time.Sleep.
 func Sleep(site string, d time.Duration) {
 	s := S
-	if s == nil || s.free.Load() || s.cur == nil {
+	if s == nil || s.free.Load() || s.cur == nil || (RawLib && !IsTask()) {
 		time.Sleep(d)
 		return
 	}
@@ -1028,7 +1079,7 @@ func (p *Pool) Get() any {
 	rawMu.Lock()
 	defer rawMu.Unlock()
 	if n := len(p.free); n > 0 {
-		if s != nil && s.PoolEvict && !s.free.Load() && s.cur != nil && s.Choose(ChPool, 4, "pool") == 1 {
+		if s != nil && s.PoolEvict && !RawLib && !s.free.Load() && s.cur != nil && s.Choose(ChPool, 4, "pool") == 1 {
 			p.free = nil
 			s.PoolEvictions++
 		} else {
